@@ -674,3 +674,42 @@ Qed.
 Example ex_sheets : conflict [83] [] = false /\ pick [] [83] = [83] /\ conflict [83] [84] = true
   /\ op_union (VA (unorm [] (colrange 1 3))) (VA (unorm [83] (rowrange 2 5))) = Ok (VA (ARange [83] 0 0 16383 1048575)).
 Proof. vm_compute. repeat split; reflexivity. Qed.
+
+(* ------------------------------------ ** is exactly associative away from the edge *)
+(* no bounded axis reaches the last column / row of the sheet *)
+Definition inner (a : rect) : Prop := (x1 a <> 0 -> x2 a < MAX_COL) /\ (y1 a <> 0 -> y2 a < MAX_ROW).
+Lemma reread_join M lo1 hi1 lo2 hi2 : 2 <= M -> ax_ok M lo1 hi1 -> ax_ok M lo2 hi2 ->
+  (lo1 <> 0 -> hi1 < M) -> (lo2 <> 0 -> hi2 < M) ->
+  jlo lo1 lo2 + ax_size M (jlo lo1 lo2) (jhi M lo1 hi1 lo2 hi2) = jhi M lo1 hi1 lo2 hi2 + 1
+  /\ (jlo lo1 lo2 <> 0 -> jhi M lo1 hi1 lo2 hi2 < M).
+Proof.
+  intros HM H1 H2 I1 I2.
+  destruct (join_axis_ok _ _ _ _ _ HM H1 H2) as (K & _).
+  destruct (ax_ok_size _ _ _ K) as [(A & B & ->)|(A & B & ->)]; revert A B; unfold jlo, jhi;
+    destruct (ax_ok_size _ _ _ H1) as [(A1 & B1 & ->)|(A1 & B1 & ->)];
+    destruct (ax_ok_size _ _ _ H2) as [(C & D & ->)|(C & D & ->)]; lia.
+Qed.
+Lemma join3_axis M lo1 hi1 lo2 hi2 lo3 hi3 : 2 <= M -> ax_ok M lo1 hi1 -> ax_ok M lo2 hi2 -> ax_ok M lo3 hi3 ->
+  (lo1 <> 0 -> hi1 < M) -> (lo2 <> 0 -> hi2 < M) -> (lo3 <> 0 -> hi3 < M) ->
+  jlo (jlo lo1 lo2) lo3 = jlo lo1 (jlo lo2 lo3)
+  /\ jhi M (jlo lo1 lo2) (jhi M lo1 hi1 lo2 hi2) lo3 hi3 = jhi M lo1 hi1 (jlo lo2 lo3) (jhi M lo2 hi2 lo3 hi3).
+Proof.
+  intros HM H1 H2 H3 I1 I2 I3. split; [unfold jlo; lia|].
+  destruct (reread_join M lo1 hi1 lo2 hi2 HM H1 H2 I1 I2) as [R12 _].
+  destruct (reread_join M lo2 hi2 lo3 hi3 HM H2 H3 I2 I3) as [R23 _].
+  unfold jhi at 1. rewrite R12. unfold jhi at 2. rewrite R23. unfold jhi. lia.
+Qed.
+Lemma uunion_assoc_exact s a b c : uwf a -> uwf b -> uwf c -> inner a -> inner b -> inner c ->
+  bind (op_union (VA (unorm s a)) (VA (unorm s b))) (fun x => op_union x (VA (unorm s c)))
+  = bind (op_union (VA (unorm s b)) (VA (unorm s c))) (fun x => op_union (VA (unorm s a)) x).
+Proof.
+  intros Ha Hb Hc (Iax & Iay) (Ibx & Iby) (Icx & Icy).
+  destruct (uunion_assoc_cells s a b c Ha Hb Hc) as (-> & -> & _). do 3 f_equal.
+  destruct Ha as (Ax & Ay), Hb as (Bx & By), Hc as (Cx & Cy).
+  destruct (join3_axis MAX_COL _ _ _ _ _ _ max_col_2 Ax Bx Cx Iax Ibx Icx) as [X1 X2].
+  destruct (join3_axis MAX_ROW _ _ _ _ _ _ max_row_2 Ay By Cy Iay Iby Icy) as [Y1 Y2].
+  apply rect_eq; cbn [ujoin x1 x2 y1 y2]; assumption.
+Qed.
+Example ex_inner : inner (colrange 1 3) /\ inner {| x1 := 5; y1 := 7; x2 := 5; y2 := 1048575 |}
+  /\ ~ inner {| x1 := 5; y1 := 1048576; x2 := 5; y2 := 1048576 |}.
+Proof. unfold inner, MAX_COL, MAX_ROW. cbn. lia. Qed.
